@@ -56,7 +56,9 @@ Definition ex_fee (sc : scn) (s : state) : result N :=
 
 (* min_ref_script_fee over the referenced scripts (tx_builder.rs:157-167) *)
 Definition ref_fee (sc : scn) (ref_const : N) (s : state) : result N :=
-  let total := sumN (map (fun e => u_ref (lookup_uinfo sc (fst e))) (s_inputs s)) + ref_const in
+  (* get_total_ref_scripts_size keys the sizes by reference input; the harness derives the reference outpoint of a
+     kind-5 UTxO from its <refsize>, so equal sizes are one referenced script *)
+  let total := sumN (nodup N.eq_dec (filter (fun x => 0 <? x) (map (fun e => u_ref (lookup_uinfo sc (fst e))) (s_inputs s)))) + ref_const in
   match sc_ref_price sc with
   | Some (n, d) => z_res (min_ref_script_fee (Z.of_N total) n d)
   | None => if 0 <? total then Err else Ok 0
@@ -73,14 +75,16 @@ Record ostate : Type := mkO {
   o_sel : option (list N * bool);
   o_bad : bool;
   o_k : option (list N * N);      (* the input ids K is known for, and K *)
+  o_kpend : option N;             (* K as measured by the harness, not yet bound to an input set: it belongs to the
+                                     input set of the first fee question of the operation *)
   o_checked : N                   (* fee answers that were predicted (not used for calibration) *)
 }.
 
-Definition set_bad (o : ostate) : ostate := mkO (o_tape o) (o_sel o) true (o_k o) (o_checked o).
+Definition set_bad (o : ostate) : ostate := mkO (o_tape o) (o_sel o) true (o_k o) (o_kpend o) (o_checked o).
 
 Definition pop6 (site : N) (o : ostate) : option (option N) * ostate :=
   match o_tape o with
-  | (s, a) :: r => if s =? site then (Some a, mkO r (o_sel o) (o_bad o) (o_k o) (o_checked o)) else (None, set_bad o)
+  | (s, a) :: r => if s =? site then (Some a, mkO r (o_sel o) (o_bad o) (o_k o) (o_kpend o) (o_checked o)) else (None, set_bad o)
   | [] => (None, set_bad o)
   end.
 
@@ -132,20 +136,25 @@ Definition fee_answer (sc : scn) (ref_const : N) (st : state) (o : ostate) : res
   | (Some ans, o') =>
       let ids := map fst (s_inputs st) in
       let r := match ans with Some v => Ok v | None => Err end in
-      match known_k o' ids with
+      (* bind a pending measurement to the input set of this (first) question *)
+      let o1 := match known_k o' ids, o_kpend o' with
+                | None, Some k => mkO (o_tape o') (o_sel o') (o_bad o') (Some (ids, k)) None (o_checked o')
+                | _, _ => o'
+                end in
+      match known_k o1 ids with
       | Some k =>
           let pred := min_fee_model (env_of sc ref_const k) st in
           if res_eqb pred ans
-          then (r, mkO (o_tape o') (o_sel o') (o_bad o') (o_k o') (o_checked o' + 1))
-          else (r, set_bad o')
+          then (r, mkO (o_tape o1) (o_sel o1) (o_bad o1) (o_k o1) (o_kpend o1) (o_checked o1 + 1))
+          else (r, set_bad o1)
       | None =>
           match ans with
           | Some v =>
               match calibrate sc ref_const st v with
-              | Some k => (r, mkO (o_tape o') (o_sel o') (o_bad o') (Some (ids, k)) (o_checked o'))
-              | None => (r, o')
+              | Some k => (r, mkO (o_tape o1) (o_sel o1) (o_bad o1) (Some (ids, k)) None (o_checked o1))
+              | None => (r, o1)
               end
-          | None => (r, o')
+          | None => (r, o1)
           end
       end
   end.
@@ -158,8 +167,8 @@ Definition fee_oracle (sc : scn) (ref_const : N) (utxos : list (N * value)) : @o
     (fun _ o => pop_bool6 site_T o)
     (fun _ us o =>
        match o_sel o with
-       | Some (ids, ok) => ((resolve us ids, ok), mkO (o_tape o) None (o_bad o) (o_k o) (o_checked o))
-       | None => (([], false), mkO (o_tape o) None true (o_k o) (o_checked o))
+       | Some (ids, ok) => ((resolve us ids, ok), mkO (o_tape o) None (o_bad o) (o_k o) (o_kpend o) (o_checked o))
+       | None => (([], false), mkO (o_tape o) None true (o_k o) (o_kpend o) (o_checked o))
        end).
 
 (* ------------------------------------------------------------------------------------------- *)
@@ -217,13 +226,20 @@ End Snap.
 
 Inductive op6 : Type :=
 | Base (x : op)
-| Aux (is_ref : bool) (n : N).          (* x <tag> <n>: only `x ref <size>` matters to the model *)
+| Aux (tag : N) (n : N).                (* x <tag> <n>: 1 = ref <size> (reference-script bytes), 2 = coll (a collateral
+                                          input was added), 0 = the others (only the size of the transaction changes) *)
 
 Record rstate : Type := mkR {
   r_st : state;
   r_ref : N;                           (* bytes of scripts on the explicit reference inputs *)
-  r_bal : option (bool * bool)         (* slack_ok, binding of the last successful change computation; None once edited *)
+  r_bal : option (bool * bool);        (* slack_ok, binding of the last successful change computation; None once edited *)
+  r_coll : bool;                       (* a collateral input was added *)
+  r_sdh : bool                         (* the script data hash is set (the harness sets it before the first change computation
+                                          when a Plutus input is present) *)
 }.
+
+Definition has_plutus_input (sc : scn) (s : state) : bool :=
+  existsb (fun e => is_plutus (lookup_uinfo sc (fst e))) (s_inputs s).
 
 Definition finish6 {A} (r : @out ostate A) (okv : A -> opres) : opres * state :=
   let o := out_orc r in
@@ -232,22 +248,24 @@ Definition finish6 {A} (r : @out ostate A) (okv : A -> opres) : opres * state :=
   then (RDesync, out_st r)
   else (res_of (out_res r) okv, out_st r).
 
-Definition start_o (tape : list (N * option N)) (sel : option (list N * bool)) (k : option N) (s : state) : ostate :=
-  mkO tape sel false (match k with Some k => Some (map fst (s_inputs s), k) | None => None end) 0.
+Definition start_o (tape : list (N * option N)) (sel : option (list N * bool)) (k : option N) : ostate :=
+  mkO tape sel false None k 0.
 
-Definition k_const (o : ostate) : N := match o_k o with Some (_, k) => k | None => 0 end.
+Definition k_const (o : ostate) : N :=
+  match o_k o, o_kpend o with Some (_, k), _ => k | None, Some k => k | None, None => 0 end.
 
 (* one operation; [tape], [sel], [k] are what the harness recorded for it.  Returns the result, the new runner state,
    the number of fee answers that were predicted and checked *)
 Definition run_op6 (sc : scn) (utxos : list (N * value)) (x : op6) (tape : list (N * option N))
     (sel : option (list N * bool)) (k : option N) (r : rstate) : opres * rstate * N :=
   let s := r_st r in
-  let o := start_o tape sel k s in
+  let o := start_o tape sel k in
   let orc := fee_oracle sc (r_ref r) utxos in
+  let sdh := r_sdh r || has_plutus_input sc s in
   match x with
-  | Aux is_ref n =>
+  | Aux tag n =>
       (match tape, sel with [], None => ROk | _, _ => RDesync end,
-       mkR s (if is_ref then r_ref r + n else r_ref r) None, 0)
+       mkR s (if tag =? 1 then r_ref r + n else r_ref r) None (r_coll r || (tag =? 2)) (r_sdh r), 0)
   | Base (OpChange addr extra) =>
       let res := add_change orc fuel_default addr extra s o in
       let e := env_of sc (r_ref r) (k_const o) in
@@ -256,7 +274,7 @@ Definition run_op6 (sc : scn) (utxos : list (N * value)) (x : op6) (tape : list 
                  | _ => r_bal r
                  end in
       let f := finish6 res RBool in
-      (fst f, mkR (snd f) (r_ref r) bal, o_checked (out_orc res))
+      (fst f, mkR (snd f) (r_ref r) bal (r_coll r) sdh, o_checked (out_orc res))
   | Base (OpSelectChange avail addr extra) =>
       let us := resolve utxos avail in
       let res := add_inputs_from_and_change orc fuel_default us addr extra s o in
@@ -269,19 +287,24 @@ Definition run_op6 (sc : scn) (utxos : list (N * value)) (x : op6) (tape : list 
                  | _, _ => r_bal r
                  end in
       let f := finish6 res RBool in
-      (fst f, mkR (snd f) (r_ref r) bal, o_checked (out_orc res))
+      (fst f, mkR (snd f) (r_ref r) bal (r_coll r) sdh, o_checked (out_orc res))
   | Base OpBuild =>
-      let res := build_tx orc s o in
-      let f := finish6 res (fun _ => ROk) in
-      (fst f, mkR (snd f) (r_ref r) (r_bal r), o_checked (out_orc res))
+      (* build_tx's pre-checks (tx_builder.rs build_tx: Plutus inputs need a script data hash and collateral): they run
+         before validate_fee, so nothing is asked of the oracle when they fail *)
+      if has_plutus_input sc s && negb (r_sdh r && r_coll r)
+      then (match tape with [] => RErr | _ => RDesync end, r, 0)
+      else
+        let res := build_tx orc s o in
+        let f := finish6 res (fun _ => ROk) in
+        (fst f, mkR (snd f) (r_ref r) (r_bal r) (r_coll r) (r_sdh r), o_checked (out_orc res))
   | Base (OpOutput y) =>
       let res := add_output orc y s o in
       let f := finish6 res (fun _ => ROk) in
-      (fst f, mkR (snd f) (r_ref r) None, 0)
+      (fst f, mkR (snd f) (r_ref r) None (r_coll r) (r_sdh r), 0)
   | Base b =>
       (* the operations that do not ask the oracle: C05's runner with an empty tape *)
       match run_op utxos b s (mkTape tape (match sel with Some x => Some x | None => None end) false) with
-      | (res, s', _) => (res, mkR s' (r_ref r) None, 0)
+      | (res, s', _) => (res, mkR s' (r_ref r) None (r_coll r) (r_sdh r), 0)
       end
   end.
 
